@@ -53,3 +53,10 @@ Definition omd_at (o : option (list mdentry)) (n : nat) : result mdentry :=
 (* md.get(key, None) *)
 Definition md_lookup (e : mdentry) (k : option text) : Tree :=
   match k with Some k' => md_get k' e | None => tNone end.
+
+(* ---- the reader (Table._extract_data_from_tsv, target tsvread) ---- *)
+(* truth value of a str; of the header variable (False or a list) *)
+Definition text_true (t : text) : bool := match t with [] => false | _ :: _ => true end.
+Definition hdr_true (h : option (list text)) : bool := match h with Some (_ :: _) => true | _ => false end.
+(* s.split(d): only one-character separators are given a meaning (the library passes a tab) *)
+Definition str_split (s d : text) : list text := match d with [c] => split_on c s | _ => [s] end.
